@@ -414,6 +414,7 @@ func (reg *Reg) blobPutUploadFull(ctx context.Context, r ref.Ref, d descriptor.D
 		Method:     "PUT",
 		Repository: r.Repository,
 		DirectURL:  putURL,
+		DirectAuth: true,
 		BodyFunc:   bodyFunc,
 		BodyLen:    d.Size,
 		Headers:    header,
@@ -512,6 +513,7 @@ func (reg *Reg) blobPutUploadChunked(ctx context.Context, r ref.Ref, d descripto
 				Method:      "PATCH",
 				Repository:  r.Repository,
 				DirectURL:   &chunkURL,
+				DirectAuth:  true,
 				BodyFunc:    bodyFunc,
 				BodyLen:     int64(chunkSize),
 				Headers:     header,
@@ -613,6 +615,7 @@ func (reg *Reg) blobPutUploadChunked(ctx context.Context, r ref.Ref, d descripto
 		Method:     "PUT",
 		Repository: r.Repository,
 		DirectURL:  &chunkURL,
+		DirectAuth: true,
 		BodyLen:    int64(0),
 		Headers:    header,
 		NoMirrors:  true,
@@ -642,6 +645,7 @@ func (reg *Reg) blobUploadCancel(ctx context.Context, r ref.Ref, putURL *url.URL
 		Method:     "DELETE",
 		Repository: r.Repository,
 		DirectURL:  putURL,
+		DirectAuth: true,
 	}
 	resp, err := reg.reghttp.Do(ctx, req)
 	if err != nil {
@@ -662,6 +666,7 @@ func (reg *Reg) blobUploadStatus(ctx context.Context, r ref.Ref, putURL *url.URL
 		Method:     "GET",
 		Repository: r.Repository,
 		DirectURL:  putURL,
+		DirectAuth: true,
 		NoMirrors:  true,
 	}
 	resp, err := reg.reghttp.Do(ctx, req)
